@@ -3,7 +3,9 @@ package hotline
 import (
 	"bytes"
 	"encoding/binary"
+	"fmt"
 	"io"
+	"math"
 	"slices"
 )
 
@@ -263,6 +265,9 @@ func (ffo *flattenedFileObject) Read(p []byte) (int, error) {
 	return n, nil
 }
 
+// maxInfoForkSize is the largest possible information fork: fixed fields, name and comment at their maximum length.
+const maxInfoForkSize = 74 + math.MaxUint16 + math.MaxUint16
+
 func (ffo *flattenedFileObject) ReadFrom(r io.Reader) (int64, error) {
 	var n int64
 
@@ -274,7 +279,12 @@ func (ffo *flattenedFileObject) ReadFrom(r io.Reader) (int64, error) {
 		return n, err
 	}
 
+	// The information fork holds 74 bytes of fixed fields plus a name and a comment with 2-byte lengths.  Do not
+	// allocate more than that on the say-so of the peer: the size field can announce up to 4 GiB.
 	dataLen := binary.BigEndian.Uint32(ffo.FlatFileInformationForkHeader.DataSize[:])
+	if dataLen > maxInfoForkSize {
+		return n, fmt.Errorf("information fork size %d exceeds maximum of %d", dataLen, maxInfoForkSize)
+	}
 	ffifBuf := make([]byte, dataLen)
 	if _, err := io.ReadFull(r, ffifBuf); err != nil {
 		return n, err
